@@ -137,7 +137,12 @@ def run_e2e(case):
                                            f"last_ack={snd.last_ack} of {size}, sink holds {sink.recv_buffer}; {len(data_tap.recs)} data "
                                            f"and {len(ack_tap.recs)} ACK transmissions", "C16.reliability")
     if env.peek() != inf:
-        raise Violation("C16.quiescence", "timers still pending at the horizon after completion", "C16.quiescence")
+        # After a long outage the backed-off RTO can exceed the horizon; the sleepers of timers that were stopped when their
+        # segment was acknowledged stay on the agenda until then (they fire nothing). Only a timer that is still armed counts.
+        armed = [k for k, t in getattr(snd, "timers", {}).items() if not getattr(t, "stopped", False)]
+        if armed:
+            raise Violation("C16.quiescence", f"retransmission timers of segments {sorted(armed)[:5]} still armed after everything "
+                                              f"was acknowledged", "C16.quiescence")
     classes = set()
     n_data = len(data_tap.recs)
     dropped_d = [i for i in case["drop_data"] if i < n_data]
@@ -179,7 +184,23 @@ def e2e_strategy(tier):
         "d1": st.sampled_from([0.125, 0.25, 0.01, 0.1]),
         "d2": st.sampled_from([0.125, 0.25, 0.01, 0.1]),
         "drop_data": st.just([]), "drop_ack": st.just([])})
-    return kgen.weighted([(lossy, 4), (clean, 1)])
+    # a long outage: every transmission in a window of 6-14 consecutive ones is lost (data, ACKs or both), so that the same
+    # segment is lost many times in a row and the retransmission timer backs off a long way
+    def window(t):
+        return list(range(t[0], t[0] + t[1]))
+    win = st.tuples(st.integers(0, 12), st.integers(6, 14)).map(window)
+    outage = st.fixed_dictionaries({
+        "cc": st.sampled_from(["reno", "cubic"]),
+        "nseg": st.integers(1, 16),
+        "rtt0": st.sampled_from([1.0, 0.5, 2.0, 16.0, 40.0]),
+        "d1": st.sampled_from([0.125, 0.5, 0.01]),
+        "d2": st.sampled_from([0.125, 0.5, 0.01]),
+        # one window only, on the data or on the ACK path: every loss can double the RTO once, and the bounded form of
+        # "eventually" (the 1e9 s horizon) must stay far above rto0 * 2**losses
+        "which": st.sampled_from(["data", "data", "ack"]), "win": win}).map(
+        lambda d: dict({k: v for k, v in d.items() if k not in ("which", "win")},
+                       drop_data=d["win"] if d["which"] == "data" else [], drop_ack=d["win"] if d["which"] == "ack" else []))
+    return kgen.weighted([(lossy, 4), (clean, 1), (outage, 1)])
 
 
 PROP = Property(
